@@ -60,6 +60,16 @@ class Repo:
         self.root = root
         self.modules: Dict[str, ModuleInfo] = {}
         self.class_index: Dict[str, ClassInfo] = {}
+        # index every module of the code base (class hierarchy and imports are global facts)
+        for top in ('src', 'sv'):
+            for dirpath, _, files in os.walk(os.path.join(root, top)):
+                for f in sorted(files):
+                    if f.endswith('.py'):
+                        rel = os.path.relpath(os.path.join(dirpath, f), root)
+                        try:
+                            self.module(rel)
+                        except ExtractError:
+                            pass
 
     # ------------------------------------------------------------------ loading
     def module(self, relpath: str) -> ModuleInfo:
